@@ -32,6 +32,8 @@ structure CCfg where
   storeReloads : Bool    -- case 3 stores through a re-loaded `self._cache` (true) / into the dict it looked up (false)
   storeGuard : Bool      -- that store is wrapped in `except AttributeError: pass` (issue 1948)
   delGuard : Bool        -- cache_deactivate swallows AttributeError
+  ownerOnly : Bool := false  -- fact `cacheOwnerOnly`: the dict is tagged with the activating thread and the wrapper
+                             -- consults / fills it only when called by that thread (others: plain `fun(self)`)
   deriving DecidableEq, Repr
 
 /-- how a returned value was obtained -/
@@ -86,12 +88,13 @@ structure St where
   nextId : Nat
   created : Nat → Nat                   -- ghost: dict id → instant of its creation
   ents : Nat → Nat → Option Entry       -- heap: dict id → key → entry
+  creator : Nat → Nat                   -- dict id → thread that created it (stored with the dict when `ownerOnly`)
   lock : Option Nat
   thr : Nat → Thread
 
 def St.init : St :=
   { now := 0, ver := fun _ => 0, denied := fun _ => false, hist := fun _ _ => 0, attr := none,
-    nextId := 0, created := fun _ => 0, ents := fun _ _ => none, lock := none,
+    nextId := 0, created := fun _ => 0, ents := fun _ _ => none, creator := fun _ => 0, lock := none,
     thr := fun _ => ⟨.idle, .out⟩ }
 
 def setPc (s : St) (tid : Nat) (pc : PC) : St :=
@@ -119,7 +122,8 @@ def tstep (cfg : CCfg) (s : St) (tid : Nat) (c : Choice) : Option St :=
   | .act (k + 1), .step =>
     some (setPc { s with attr := some s.nextId, nextId := s.nextId + 1,
                          created := fun d => if d = s.nextId then s.now else s.created d,
-                         ents := fun d => if d = s.nextId then (fun _ => none) else s.ents d }
+                         ents := fun d => if d = s.nextId then (fun _ => none) else s.ents d,
+                         creator := fun d => if d = s.nextId then tid else s.creator d }
             tid (.act k))
   | .act 0, .step => some (setThr s tid ⟨.idle, .inReal⟩)
   | .deact (k + 1), .step =>
@@ -130,7 +134,9 @@ def tstep (cfg : CCfg) (s : St) (tid : Nat) (c : Choice) : Option St :=
   | .release, .step => some (setThr { s with lock := none } tid ⟨.idle, .out⟩)
   | .w0 f cs, .step =>
     match s.attr with
-    | some d => some (setPc s tid (.w1 f cs d s.now))
+    | some d =>
+      if cfg.ownerOnly && s.creator d != tid then some (setPc s tid (.w2 f cs none))   -- another thread's cache: bypass
+      else some (setPc s tid (.w1 f cs d s.now))
     | none => some (setPc s tid (.w2 f cs none))            -- AttributeError → case 2
   | .w1 f cs d t0, .step =>
     match s.ents d f with
